@@ -192,6 +192,23 @@ struct Mixed {
             MX("Hsync", Hsync(fid) == FAIL);
             return true;
         }
+        if (k == "hext") { // element stored in an external file
+            if (!need_h())
+                return true;
+            uint16 tag = (uint16)(htag(o.arg(0)) + 300), ref = href(o.arg(1));
+            auto   key = std::make_pair((int)tag, (int)ref);
+            if (hlen.count(key))
+                return false;
+            int64_t len = std::max<int64_t>(1, o.arg(2));
+            int32   aid = HXcreate(fid, tag, ref, "/sim/mixed_ext.dat", (int32)(modn(o.arg(1), 8) * 700 + modn(o.arg(0), 3) * 5000), (int32)len);
+            if (MX("HXcreate", aid == FAIL))
+                return true;
+            std::vector<uint8_t> d = data_block((uint64_t)o.arg(3), (size_t)len);
+            MX("Hwrite", Hwrite(aid, (int32)len, d.data()) != (int32)len);
+            MX("Hendaccess", Hendaccess(aid) == FAIL);
+            hlen[key] = len;
+            return true;
+        }
         if (k == "hdup") { // alias an existing plain element under another ref (new descriptor, no new data)
             if (!need_h())
                 return true;
@@ -207,7 +224,7 @@ struct Mixed {
             if (!need_h())
                 return true;
             bool   lk  = o.arg(0) != 0;
-            uint16 tag = (uint16)(htag(o.arg(1)) + (o.arg(0) == 2 ? 200 : lk ? 100 : 0)), ref = href(o.arg(2));
+            uint16 tag = (uint16)(htag(o.arg(1)) + (o.arg(0) == 3 ? 300 : o.arg(0) == 2 ? 200 : lk ? 100 : 0)), ref = href(o.arg(2));
             auto   key = std::make_pair((int)tag, (int)ref);
             if (k == "hput") {
                 int64_t len = std::max<int64_t>(1, o.arg(3));
@@ -667,7 +684,7 @@ struct MixedGen {
     // read ops covering every object name the workload can create
     static void read_all(std::vector<Op> &ops)
     {
-        for (int lk = 0; lk < 3; lk++)
+        for (int lk = 0; lk < 4; lk++)
             for (int t = 0; t < 3; t++)
                 for (int r = 0; r < 8; r++)
                     ops.push_back(mkop(0, "hread", {lk, t, r}));
